@@ -17,8 +17,19 @@ from .snakes import compute_snakes_multilevel, compute_diff_from_snakes
 __all__ = ["diff"]
 
 
+class _PredicateDefaults(defaultdict):
+    """defaultdict whose lookup of a missing path does not insert it.
+
+    diff_dicts uses `path in config.predicates` to detect predicates that
+    were configured for a dict entry, so merely looking up the default
+    predicate for a list at some path must not register that path.
+    """
+    def __missing__(self, key):
+        return self.default_factory()
+
+
 def default_predicates():
-    return defaultdict(lambda: (operator.__eq__,))
+    return _PredicateDefaults(lambda: (operator.__eq__,))
 
 
 def default_differs():
